@@ -16,20 +16,22 @@ EXTENDS Integers, Sequences, FiniteSets, TLC
 CONSTANTS Slots, MaxOps
 (* forms of one signed document; pub2: extended to a later publication; nonmin: the pub form with one inner TLV header in non-minimal (16-bit) *)
 (* encoding -- accepted by the parser, so everything but "re-serializes to the parsed bytes" applies to it as well                              *)
-SigKinds == {"nocal", "calonly", "auth", "pub", "pub2", "broken", "nonmin"}
-Free == [base |-> "-", ext |-> "-", lvl |-> 0]
-Contents == [base : SigKinds, ext : {"none", "head", "later", "pubrec1", "pubrec2"}, lvl : 0..4]
+(* local: a signature whose document hash is the root of a LOCAL aggregation tree (issued for a level above 0): a local aggregation chain can be    *)
+(* prepended to it, which yields a signature for the local leaf                                                                             *)
+SigKinds == {"nocal", "calonly", "auth", "pub", "pub2", "broken", "nonmin", "local"}
+Free == [base |-> "-", ext |-> "-", lvl |-> 0, pre |-> FALSE]
+Contents == [base : SigKinds, ext : {"none", "head", "later", "pubrec1", "pubrec2"}, lvl : 0..4, pre : BOOLEAN]
 
 VARIABLES obj, ops, log
 vars == <<obj, ops, log>>
 Live == {s \in Slots : obj[s] # Free}
 HasPubRec(c) == (c.base \in {"pub", "pub2", "nonmin"} /\ c.ext = "none") \/ c.ext \in {"pubrec1", "pubrec2"}
 PubRecOf(c) == IF c.ext = "pubrec1" \/ (c.ext = "none" /\ c.base \in {"pub", "nonmin"}) THEN "pubrec1" ELSE "pubrec2"
-Extendable(c) == c.base # "broken" /\ c.ext = "none" /\ c.base # "pub2"
+Extendable(c) == c.base \notin {"broken", "local"} /\ c.ext = "none" /\ c.base # "pub2"
 
 Init == obj = [s \in Slots |-> Free] /\ ops = <<>> /\ log = 0
 Rec(o) == ops' = Append(ops, [op |-> o.op, a |-> o.a, b |-> o.b, c |-> o.c, post |-> obj'])
-Parse(s, k) == /\ obj[s] = Free /\ obj' = [obj EXCEPT ![s] = [base |-> k, ext |-> "none", lvl |-> 0]]
+Parse(s, k) == /\ obj[s] = Free /\ obj' = [obj EXCEPT ![s] = [base |-> k, ext |-> "none", lvl |-> 0, pre |-> FALSE]]
                /\ Rec([op |-> "parse", a |-> s, b |-> -1, c |-> k]) /\ UNCHANGED log
 Clone(d, s) == /\ obj[d] = Free /\ obj[s] # Free /\ obj' = [obj EXCEPT ![d] = obj[s]]
                /\ Rec([op |-> "clone", a |-> d, b |-> s, c |-> "-"]) /\ UNCHANGED log
@@ -45,6 +47,10 @@ ExtendWith(d, s, r) == /\ obj[d] = Free /\ obj[s] # Free /\ obj[r] # Free /\ Ext
 AddLevel(d, s, l) == /\ obj[d] = Free /\ obj[s] # Free /\ obj[s].base # "broken"
                      /\ obj' = IF l = 0 THEN [obj EXCEPT ![d] = obj[s]] ELSE obj
                      /\ Rec([op |-> "addlevel", a |-> d, b |-> s, c |-> l]) /\ UNCHANGED log
+(* prepending the local aggregation chain (signature builder): a new object; the source is not touched *)
+Prepend(d, s) == /\ obj[d] = Free /\ obj[s] # Free /\ obj[s].base = "local" /\ ~obj[s].pre
+                 /\ obj' = [obj EXCEPT ![d] = [obj[s] EXCEPT !.pre = TRUE]]
+                 /\ Rec([op |-> "prepend", a |-> d, b |-> s, c |-> "-"]) /\ UNCHANGED log
 Release(s) == /\ obj[s] # Free /\ obj' = [obj EXCEPT ![s] = Free]
               /\ Rec([op |-> "free", a |-> s, b |-> -1, c |-> "-"]) /\ UNCHANGED log
 (* observations and unrelated activity: no content changes *)
@@ -59,6 +65,7 @@ Next == /\ Len(ops) < MaxOps
            \/ \E d, s \in Slots, t \in {"head", "later"} : ExtendTo(d, s, t)
            \/ \E d, s, r \in Slots : ExtendWith(d, s, r)
            \/ \E d, s \in Slots, l \in {0, 2} : AddLevel(d, s, l)
+           \/ \E d, s \in Slots : Prepend(d, s)
            \/ \E s \in Slots : Release(s)
            \/ \E s \in Slots : Verify(s)
            \/ \E k \in {"hash", "log"} : Noise(k)
